@@ -778,7 +778,7 @@ fn gen_cb(rng: &mut Rng, fault_pm: usize) -> Vec<CbOp> {
             2 => CbOp::Type,
             3 => CbOp::Class,
             4 => CbOp::Ttl,
-            5 => CbOp::SetTtl(rng.next_u64() as u32),
+            5 => CbOp::SetTtl(gen::gen_ttl(rng)),
             6 => {
                 if rng.bool() {
                     CbOp::Ip
@@ -788,7 +788,7 @@ fn gen_cb(rng: &mut Rng, fault_pm: usize) -> Vec<CbOp> {
             }
             7 => {
                 let n = if rng.bool() { 4 } else { 16 };
-                CbOp::SetIp(rng.bytes(n))
+                CbOp::SetIp(gen::gen_addr(rng, n))
             }
             8 | 9 => {
                 if fault {
